@@ -172,6 +172,22 @@ func Add(a, b *Term) *Term {
 	if a.IsInt() {
 		return Add(b, a)
 	}
+	// a + (p - a) = p ; (p - b) + b = p
+	if b.Op == "-" && len(b.Args) == 2 && same(b.Args[1], a) {
+		return b.Args[0]
+	}
+	if a.Op == "-" && len(a.Args) == 2 && same(a.Args[1], b) {
+		return a.Args[0]
+	}
+	// (x + y) + (p - x) -> y + p   (offset arithmetic under shifted quantifiers)
+	if b.Op == "-" && len(b.Args) == 2 && a.Op == "+" && len(a.Args) == 2 {
+		if same(a.Args[0], b.Args[1]) {
+			return Add(a.Args[1], b.Args[0])
+		}
+		if same(a.Args[1], b.Args[1]) {
+			return Add(a.Args[0], b.Args[0])
+		}
+	}
 	// (x + c1) + y -> (x + y) + c1
 	if a.Op == "+" && len(a.Args) == 2 && a.Args[1].IsInt() && !b.IsInt() {
 		return Add(Add(a.Args[0], b), a.Args[1])
@@ -404,6 +420,10 @@ func Select(arr, idx *Term) *Term {
 			arr = arr.Args[0]
 			continue
 		}
+		if (arr.Sort == SArrB || strings.HasPrefix(elemSort(arr.Sort), "(Array")) && regionDistinct(si, idx) {
+			arr = arr.Args[0]
+			continue
+		}
 		break
 	}
 	return App("select", elemSort(arr.Sort), arr, idx)
@@ -424,6 +444,63 @@ func distinctSyntactically(a, b *Term) bool {
 		return ca.Cmp(cb) != 0
 	}
 	return false
+}
+
+// regionDistinct: two region-valued terms are different when one is a freshly
+// allocated region symbol (fresh.*!N) and every generated symbol in the other
+// was created before it (regions that existed earlier were allocated earlier),
+// or when both are different fresh symbols, or the other is the nil region 0.
+func regionDistinct(a, b *Term) bool {
+	if fa, na := freshNo(a); fa {
+		return olderThan(b, na, a.Name)
+	}
+	if fb, nb := freshNo(b); fb {
+		return olderThan(a, nb, b.Name)
+	}
+	return false
+}
+
+func freshNo(t *Term) (bool, int) {
+	if t.Op != "sym" || !strings.HasPrefix(t.Name, "fresh.") {
+		return false, 0
+	}
+	return true, symNo(t.Name)
+}
+
+func symNo(name string) int {
+	i := strings.LastIndex(name, "!")
+	if i < 0 {
+		return -1
+	}
+	n := 0
+	for _, c := range name[i+1:] {
+		if c < '0' || c > '9' {
+			return -1
+		}
+		n = n*10 + int(c-'0')
+	}
+	return n
+}
+
+func olderThan(t *Term, n int, self string) bool {
+	if t.IsInt() {
+		return true
+	}
+	ok := true
+	t.walk(func(x *Term) {
+		if x.Op == "sym" {
+			if x.Name == self {
+				ok = false
+			}
+			if k := symNo(x.Name); k >= n {
+				ok = false
+			}
+		}
+		if x.Op == "forall" || x.Op == "exists" {
+			ok = false
+		}
+	})
+	return ok
 }
 
 func splitConst(a *Term) (*Term, *big.Int) {
@@ -748,4 +825,75 @@ func WrapS(t *Term, bits uint) *Term {
 	}
 	m := new(big.Int).Lsh(big.NewInt(1), bits)
 	return Sub(Mod(Add(t, BigInt(half)), BigInt(m)), BigInt(half))
+}
+
+// summands flattens nested binary additions: t = sum(terms) + c.
+func summands(t *Term) ([]*Term, *big.Int) {
+	c := big.NewInt(0)
+	var out []*Term
+	var rec func(t *Term)
+	rec = func(t *Term) {
+		switch {
+		case t.IsInt():
+			c = new(big.Int).Add(c, t.Val)
+		case t.Op == "+":
+			for _, a := range t.Args {
+				rec(a)
+			}
+		default:
+			out = append(out, t)
+		}
+	}
+	rec(t)
+	return out, c
+}
+
+func containsSym(t *Term, name string) bool {
+	found := false
+	t.walk(func(x *Term) {
+		if x.Op == "sym" && x.Name == name {
+			found = true
+		}
+	})
+	return found
+}
+
+// indexShift looks for an array read select(A, X + v) in t where v is the bound
+// variable and X does not contain it; returns X (the first such), or nil.
+func indexShift(t *Term, v string) *Term {
+	var res *Term
+	var rec func(t *Term)
+	rec = func(t *Term) {
+		if res != nil {
+			return
+		}
+		if t.Op == "select" && t.Args[1].Sort == SInt && containsSym(t.Args[1], v) {
+			terms, _ := summands(t.Args[1])
+			var rest []*Term
+			n := 0
+			ok := true
+			for _, s := range terms {
+				if s.Op == "sym" && s.Name == v {
+					n++
+				} else if containsSym(s, v) {
+					ok = false
+				} else {
+					rest = append(rest, s)
+				}
+			}
+			if ok && n == 1 && len(rest) > 0 {
+				x := rest[0]
+				for _, r := range rest[1:] {
+					x = Add(x, r)
+				}
+				res = x
+				return
+			}
+		}
+		for _, a := range t.Args {
+			rec(a)
+		}
+	}
+	rec(t)
+	return res
 }
